@@ -26,9 +26,11 @@ LEVEL_NOTE = ("Not modelled: the scan-line construction of the orthogonal visibi
               "With restricted ConnDirFlags the geometric optimum is only an infimum, so those scenes are judged "
               "against the optimum of libavoid's OWN orthogonal visibility graph (dumped from the router after "
               "routing, certificate checked by Check.OrthGraph with vg_cert_sound): this validates the A* search "
-              "incl. turn pruning but not the graph construction. Source-only restricted scenes (scene-dirs-src) "
-              "are strict; target-restricted scenes (scene-dirs-dst / legacy tag scene-dirs) are a known finding "
-              "(turn pruning assumes a line through the target).")
+              "but not the graph construction. A second certificate gives the optimum among routes permitted by "
+              "the documented turn-pruning rule (re-implemented in Check.OrthGraph.pruned). Source-only restricted "
+              "scenes on which that rule keeps an optimal route (scene-dirs-src) are strict; scenes where it provably "
+              "discards every optimal route (scene-dirs-src-lossy) and target-restricted scenes (scene-dirs-dst; both "
+              "under the legacy tag scene-dirs until known_findings.json names the new tags) are known findings.")
 TECHNIQUE = ("Lean 4 theorems (finite sign/direction case split + linear arithmetic; potential argument) + "
              "certificate checking (Hanan-grid potential, exact Rat) + correspondence harness calling the real "
              "bends()/estimatedCostSpecific()/Router")
@@ -56,19 +58,18 @@ EXPLANATION = ("bends() depends on its points only through the signs of dx, dy; 
                "feasible potential (lower bound) and a witness path (upper bound) verified in Lean.")
 
 
-def _dst_mode():
-    """Target-restricted scenes are a known finding (turn pruning). They are emitted under the tag the
-    lead's known_findings.json currently matches: `scene-dirs-dst` (--mode dirs2) if such an entry exists,
-    else the legacy tag `scene-dirs` (--mode dirs) if that one exists, else not at all."""
+def _mode():
+    """Non-strict restricted-direction classes (target restricted; source restricted + pruning-lossy) are
+    known findings. They are emitted under the tags the lead's known_findings.json matches: the new tags
+    scene-dirs-dst / scene-dirs-src-lossy (--mode dirs2) if a C05 entry names scene-dirs-dst, else the legacy
+    tag scene-dirs (--mode dirs)."""
     f = Path(__file__).resolve().parent.parent.parent / "known_findings.json"
     try:
         tags = {e.get("match", {}).get("tag") for e in json.loads(f.read_text()).get("findings", [])
                 if e.get("property") == "C05" and e.get("status") == "known"}
     except Exception:
-        return None
-    if "scene-dirs-dst" in tags: return "dirs2"
-    if "scene-dirs" in tags: return "dirs"
-    return None
+        tags = set()
+    return "dirs2" if "scene-dirs-dst" in tags else "dirs"
 
 
 def regenerate(ROOT, REPO):
@@ -83,9 +84,7 @@ def plan(tier, seed, searching):
     # search mode (broken proof/tie): 8x the scenes in the quick tier, 4x in the thorough tier (~7 min)
     scale = ("8" if tier == "quick" else "4") if searching else "1"
     h = ["--seed", str(seed), "--tier", tier, "--scale", scale]
-    m = _dst_mode()
-    if m:
-        h += ["--mode", m]
+    h += ["--mode", _mode()]
     return [dict(hargs=h)]
 
 
